@@ -156,6 +156,7 @@ def r3_sole(facts, rep):
     rep.ob("C09-R3", "callers", not stray and bool(callers),
            "apply_conversion is called from %s%s" % (callers, "" if not stray else "; %s is outside the summarised call trees of factor / mul" % stray))
     # and who calls the method pointers / reads the Offset fraction
+    own = CallGraph(facts).exclusive("compound::apply_conversion")
     for b in facts.lib_bodies():
         if b.from_derive():
             continue
@@ -164,7 +165,8 @@ def r3_sole(facts, rep):
                 from .. import flow
                 fo = flow.field_origins(b, t["callee"]["op"])
                 if any(f[-1] in ("to", "from") for f in fo):
-                    rep.ob("C09-R3", "method-pointer-call:%s" % b.path, b.path == "compound::apply_conversion",
+                    # apply_conversion itself or a helper only it uses (its summary, C09-R2, follows them)
+                    rep.ob("C09-R3", "method-pointer-call:%s" % b.path, b.path in own,
                            "a ConversionMethods pointer is called in %s" % b.path, b.site(sp))
 
 
